@@ -7,7 +7,7 @@
    from /repo on every run into Gen/ParamsC13.v (unrepaired tree: fx = false, fb = true); the theorems quantify over both., [step] one machine step, [run_steps fuel] iterates it. *)
 From Coq Require Import ZArith List Bool Arith.
 From EN Require Import Conc.CancelScope Conc.CancelScopeDomain Proofs.C13_core Proofs.C13_inv Proofs.C13_more
-  Proofs.C13_bounded Proofs.C13_leak Proofs.C13_floor Proofs.C13_sf.
+  Proofs.C13_bounded Proofs.C13_leak Proofs.C13_floor Proofs.C13_sf Proofs.C13_resume.
 Import ListNotations.
 
 (* ---------------------------------------------------------------------------------------------------------------
@@ -240,6 +240,29 @@ Proof.
   rewrite A. apply PeanoNat.Nat.add_0_r.
 Qed.
 Print Assumptions no_leftover_repaired_shield_free.
+
+(* ---- delivery half of interrupt_on_time / external_cancel_propagates, SHIELD-FREE programs, ALL controller
+   schedules, any number of steps, all code states: a cancellation that is on its way (the task is suspended with
+   _must_cancel set, or its awaited future is cancelled -- which is what Task.cancel() always leaves behind, see
+   cancel_always_marks) is never lost: every further step of the machine either keeps the task suspended with the
+   cancellation still on its way, or resumes it BY CancelledError (MDead = the loop has nothing left to run).
+   Rests on the resumption discipline proved in Proofs/C13_resume.v (at most one source of resumption, a step handle
+   only when nothing is awaited, a wake-up handle only for the awaited future).
+   What is still missing for the full interrupt_on_time: that __deliver_cancellation (which puts the cancellation on
+   its way) runs before every wake-up of a task inside a cancelled scope -- the ordering invariant, proved only on
+   the enumerated domain (interrupt_on_time_bounded). *)
+Theorem cancellation_on_its_way_is_delivered_shield_free : forall fx fb p timers turns k fuel, shield_free p = true ->
+  let st := run_steps fuel (init fx fb p timers turns k) in
+  md st = MLoop ->
+  (t_must st = true \/ exists f m, t_waiter st = Some f /\ f_st (get_fut st f) = FCanc m) ->
+  (md (step st) = MLoop /\
+   (t_must (step st) = true \/ exists f m, t_waiter (step st) = Some f /\ f_st (get_fut (step st) f) = FCanc m)) \/
+  (exists m, md (step st) = MRun (CRaise (ECancel m))) \/ md (step st) = MDead.
+Proof.
+  intros fx fb p timers turns k fuel Hp st Hm D.
+  exact (doom_step st (jinv_reachable fx fb p timers turns k fuel Hp) Hm D).
+Qed.
+Print Assumptions cancellation_on_its_way_is_delivered_shield_free.
 
 (* ---- no_leftover for the repaired __exit__ (fx = true), enumerated domain: every run finishes, every scope has
    exited, no scope left a request behind, no uncancel() hit zero, hence task.cancelling() = the controller cancels that
